@@ -186,11 +186,10 @@ Fixpoint cli_history (rs : list cli_run) (t : list rev)
       (o, t', j) :: cli_history rs' t'
   end.
 
-(** ** Stores that break the contract (used only by the [_refuted] witnesses of
-    Props_C12: they show that the guarantee depends on these two clauses).
+(** ** A store that breaks the contract (used only by the [_refuted] witness of
+    Props_C12, which shows that the guarantee depends on this clause).
     [read_revision_lax]: every failure of the lookup is reported as
-    ErrRevisionNotExist.  [write_keep_total]: the upsert does not refresh the
-    [total] column of an existing row. *)
+    ErrRevisionNotExist. *)
 Definition read_revision_lax (t : list rev) (fs : list bool) (v : bytes) : read_result * list bool :=
   let '(fail, fs') := pop fs in
   if fail then (RdNotExist, fs')
